@@ -52,7 +52,7 @@ pub fn main(args: &[String]) {
     let thorough = tier == "thorough";
     let corp: Vec<_> = corpus::load(workdir).into_iter().filter(|x| x.kind == "sv" && !x.text.contains("`define") && !x.text.contains("`include") && !x.text.contains("`ifdef") && !x.text.contains("`ifndef")).collect();
     let mut rng = Rng::new(seed ^ 0xc12);
-    let nprog = if thorough { corp.len() } else { 260 };
+    let nprog = if thorough { corp.len() } else { 500 };
     let per = if thorough { 12 } else { 4 };
     let mut jobs: Vec<(String, Vec<toks::Tok>, u64, Option<usize>)> = vec![];
     for p in 0..nprog {
@@ -111,7 +111,7 @@ pub fn main(args: &[String]) {
     // A <newline> B is, and the tree (whitespace disregarded) must not depend on the trivia around the directive
     {
         let whole: Vec<&corpus::Item> = corp.iter().filter(|x| x.text.len() < 600 && !x.text.contains('`')).collect();
-        let npairs = if thorough { 1500 } else { 150 };
+        let npairs = if thorough { 1500 } else { 300 };
         let mut rj: Vec<(String, String, String)> = vec![];
         for _ in 0..npairs {
             if whole.len() < 2 { break; }
